@@ -216,6 +216,8 @@ fn source_file_header(r: &mut Rng, s: &mut String, nl: &str, dom: Dom) {
 
 /// the query universe of a mapping, read with the implementation's own record iterator
 pub struct Universe {
+    /// number of member lines per (class, method)
+    pub counts: std::collections::BTreeMap<(String, String), usize>,
     pub classes: Vec<String>,
     pub methods: Vec<(String, String)>, // (class obf, method obf) pairs present
     pub args: Vec<String>,
@@ -227,6 +229,7 @@ pub fn universe(mapping: &[u8]) -> Universe {
     let mut methods = BTreeSet::new();
     let mut args = BTreeSet::new();
     let mut numbers = BTreeSet::new();
+    let mut counts: std::collections::BTreeMap<(String, String), usize> = std::collections::BTreeMap::new();
     let mut cur: Option<String> = None;
     let items: Vec<_> = guarded(|| ProguardMapping::new(mapping).iter().collect::<Vec<_>>()).unwrap_or_default();
     for it in items {
@@ -238,6 +241,7 @@ pub fn universe(mapping: &[u8]) -> Universe {
             Ok(ProguardRecord::Method { obfuscated, arguments, line_mapping, .. }) => {
                 if let Some(c) = &cur {
                     methods.insert((c.clone(), obfuscated.to_string()));
+                    *counts.entry((c.clone(), obfuscated.to_string())).or_default() += 1;
                 }
                 args.insert(arguments.to_string());
                 if let Some(lm) = line_mapping {
@@ -249,6 +253,7 @@ pub fn universe(mapping: &[u8]) -> Universe {
         }
     }
     Universe {
+        counts,
         classes: classes.into_iter().collect(),
         methods: methods.into_iter().collect(),
         args: args.into_iter().collect(),
@@ -697,7 +702,8 @@ pub fn gen_big_mapping(r: &mut Rng) -> String {
             }
             for k in 0..single_n {
                 let a = 1 + 2 * k;
-                match k % 3 {
+                match if k % 5 == 4 { 3 } else { k % 3 } {
+                    3 => s.push_str(&format!("    void h{}() -> b{}", k, nl)),
                     0 => s.push_str(&format!("    {}:{}:void f{}():{}:{} -> b{}", a, a + 1, k, 100 + k, 101 + k, nl)),
                     1 => s.push_str(&format!("    {}:{}:int com.other.K.inl{}(int):{} -> b{}", a, a + 1, k, 7 + k, nl)),
                     _ => s.push_str(&format!("    {}:{}:void g{}(int) -> b{}", a, a, k % 7, nl)),
@@ -791,7 +797,9 @@ pub fn emit_big_queries(out: &mut Vec<String>, mapping: &[u8], r: &mut Rng, q: Q
         if q.class {
             out.push(format!("K {}", hex(c.as_bytes())));
         }
-        let methods: Vec<&(String, String)> = u.methods.iter().filter(|(cc, _)| cc == c).collect();
+        // methods with the most member lines first
+        let mut methods: Vec<&(String, String)> = u.methods.iter().filter(|(cc, _)| cc == c).collect();
+        methods.sort_by(|a, b| u.counts.get(*b).cmp(&u.counts.get(*a)));
         let cap = if heavy.contains(c) { 12 } else { 4 };
         for (_, m) in methods.iter().take(cap) {
             if q.method {
